@@ -120,13 +120,19 @@ func writeDXF(wg *sync.WaitGroup, path string) (chan<- []*sdf.Line2, error) {
 	wg.Add(1)
 	go func() {
 		defer wg.Done()
+		verifEv("wr.start", 2, 0, 0)
+		defer verifEv("wr.exit", 2, 0, 0)
+		nl := 0
 		for ls := range c {
+			verifEv("wr.recv", 2, len(ls), nl)
+			nl += len(ls)
 			for _, l := range ls {
 				p0 := l[0]
 				p1 := l[1]
 				d.drawing.Line(p0.X, p0.Y, 0, p1.X, p1.Y, 0)
 			}
 		}
+		verifEv("wr.eof", 2, nl, 0)
 		err := d.Save()
 		if err != nil {
 			fmt.Printf("%s\n", err)
